@@ -196,7 +196,7 @@ def _domain_free(n):
     from adsg_core.optimization.graph_processor import GraphProcessor
     for env, _call, uni, desc in _domain_fix(n):
         gp, dv = env['self'], env['des_var']
-        gp.fix_des_var = (lambda d, v, gp=gp: GraphProcessor.fix_des_var(gp, d, v))
+        gp.fix_des_var = __import__('functools').partial(GraphProcessor.fix_des_var, gp)     # the real method, any call shape
         yield ({'self': gp, 'des_var': dv, 'MASKOF': env['MASKOF']}, (lambda gp=gp, dv=dv: GraphProcessor.free_des_var(gp, dv)), uni, 'free_des_var: ' + desc)
 
 
